@@ -24,7 +24,7 @@ def param_value(p):
     if p['ty'] == 'int':
         v = F(int(p['v']))
         return ('int', v, v)
-    if p['ty'] == 'time':
+    if p['ty'] in ('time', 'frac', 'mpq'):
         v = F(p['v'])
         return ('time', v, v)
     x = float.fromhex(p['v'])
@@ -135,7 +135,7 @@ class Walker:
             if dl == 0:
                 return dr
             raise Undefined(unequal_class([dl, dr]))
-        if k in ('wrap', 'rev'):
+        if k in ('wrap', 'rev', 'constr', 'single'):
             return self.den(t['body'], env)
         raise ValueError(k)
 
